@@ -286,6 +286,15 @@ def resolve_owner(f, operand, want_mut=False, depth=0):
         return None
     l = p["local"]
     ds = [d for d in f.defs_of(l) if not f.blocks[d[0]]["cleanup"]]
+    if len(ds) == 1 and ds[0][1] == "term" and not p["proj"]:
+        # a reference returned by a call that took a reference as first argument borrows from it
+        # (index_mut, deref_mut, as_mut_slice, split_at_mut ...): follow to the owner
+        t = ds[0][2]
+        dty = f.locals[l]["ty"]
+        if dty.get("k") == "ref" and t["args"] and (not want_mut or dty.get("mut")):
+            a0 = core.op_place(t["args"][0])
+            if a0 is not None and f.locals[a0["local"]]["ty"].get("k") == "ref":
+                return resolve_owner(f, t["args"][0], want_mut, depth + 1)
     if len(ds) != 1 or ds[0][1] == "term":
         return l if not p["proj"] else None
     d = ds[0][2]
@@ -301,7 +310,7 @@ def resolve_owner(f, operand, want_mut=False, depth=0):
         if len(pl["proj"]) == 1 and pl["proj"][0]["k"] == "deref":
             return resolve_owner(f, {"k": "copy", "place": {"local": pl["local"], "proj": []}}, want_mut, depth + 1)
         return None
-    if rv["k"] == "use":
+    if rv["k"] in ("use", "cast"):
         return resolve_owner(f, rv["op"], want_mut, depth + 1)
     return None
 
